@@ -43,6 +43,7 @@ import PyttbModel.Lemmas.Presentation
 import PyttbModel.Lemmas.PresentationRun
 import PyttbModel.Lemmas.PresentationRelabelWitness
 import PyttbModel.Lemmas.PresentationTuckerWitness
+import PyttbModel.Lemmas.PresentationHosvdWitness
 namespace Pyttb
 open Pres
 
@@ -676,6 +677,45 @@ theorem C18_scale_tucker_run_ok {nvecs : Nat → Dense ℝ → Nat → Nat → M
 
 end tucker_run
 
+/-! ### relabelling the modes: HOSVD
+
+The model is the one of C10 (`Alg/Hosvd.lean`: `hosvdStep`, `hosvdRun`), over ℝ.  `Tk.permuteD p X` is
+`X.permute(p)` by its entry-wise meaning (shape `gather X.shape p`, entry `j'` = entry `gather j' (invPerm p)` of
+`X`).  `scipy.linalg.eigh` is the service `eigh c Z` (call number, matrix) and NOTHING is assumed about it. -/
+
+section hosvd_relabel
+open Tk CpAls
+
+/-- The mode product and the Gram matrix of an unfolding under relabelling: multiplying mode `k` of the
+relabelled array is multiplying mode `p[k]` of the array, and the Gram matrix of the mode-`k` unfolding of the
+relabelled array IS (entry by entry, the sum over the other subscripts taken in another order) the Gram matrix
+of the mode-`p[k]` unfolding of the array. -/
+theorem C18_relabel_hosvd_step {p : List Nat} (Y : Dense ℝ) (hp : isPermOf p Y.shape.length = true) (U : Mat ℝ)
+    {k : Nat} (hk : k < Y.shape.length) (tr : Bool) :
+    ttmT (permuteD p Y) U k tr = permuteD p (ttmT Y U (p.getD k 0) tr) ∧
+    gramMode (permuteD p Y) k = gramMode Y (p.getD k 0) :=
+  ⟨ttmT_permuteD Y hp U hk tr, gramMode_permuteD Y hp hk⟩
+
+/-- **Mode relabelling of HOSVD**, sequential and not.  If `hosvd` on `X` returns the Tucker tensor `T` (and the
+per-mode records `trace`), then `hosvd` on `X.permute(p)` with the requested ranks relabelled (`gather ranks p`;
+automatic ranks stay automatic) and `dimorder` — the default made explicit — mapped through `invPerm p`
+RETURNS `relabelT p T`: the factor list relabelled (`factors'[k] = factors[p[k]]`) and the core permuted
+(`permuteD p T.core`), with the same per-mode records (same Gram matrices, same eigenvalues in the same order,
+same chosen ranks — automatic or given —, same factors), only the mode numbers relabelled.  The threshold
+`tol²‖X‖²/d` is the same number (`‖X.permute(p)‖ = ‖X‖`); the `c`-th call of `eigh` gets the same matrix in
+both runs.  In the non-sequential variant the core is the product with ALL factors in increasing mode order — a
+different order for the two runs; products in distinct modes commute. -/
+theorem C18_relabel_hosvd {p : List Nat} (eigh : Nat → Mat ℝ → List ℝ × Mat ℝ) (X : Dense ℝ) (hX : X.WF)
+    (hp : isPermOf p X.shape.length = true) (tol : ℝ) (dimorder : Option (List Nat)) (sequential : Bool)
+    (ranks : Option (List Nat)) {T : Ttensor ℝ} {trace : List (ModeRec ℝ)}
+    (h : hosvdRun realOps eigh X tol dimorder sequential ranks = .ok (T, trace)) :
+    hosvdRun realOps eigh (permuteD p X) tol (some (qmap p (modeOrder dimorder X.shape.length))) sequential
+        (ranks.map fun r => gather r p) =
+      .ok (relabelT p T, trace.map (relabelRec p)) :=
+  hosvdRun_relabel eigh X hX hp tol dimorder sequential ranks h
+
+end hosvd_relabel
+
 /-! ### the hypotheses are satisfiable / the models compute something -/
 
 -- the stream fills matrices row by row, in call order, and reports what is left
@@ -757,6 +797,15 @@ example : ∃ out recs out' recs',
     C18_scale_tucker_run_ok Tk.svc1_spec (fun _ _ _ => []) (c := 3) (by norm_num) Tk.X11 [1, 1] 0 1 (some [1, 0])
       (.list [[[1]], [[1]]]) trivial (Tk.detRun11 _ _ _ _ _) h
   exact ⟨out, recs, out', recs', h, h', r2, r1, r4, r5⟩
+-- relabelling of HOSVD on a concrete instance, both variants: the 2 × 1 array [[3], [4]], p = [1, 0], ranks [1, 1],
+-- second mode first, and a service `Tk.eighE1` that is not even an eigen-solver (nothing is assumed about `eigh`).
+-- The run returns; hence the run on the transposed array with dimorder [0, 1] returns the relabelled Tucker tensor.
+example (seq : Bool) : ∃ T trace,
+    Tk.hosvdRun Tk.realOps Tk.eighE1 Tk.X21 0 (some [1, 0]) seq (some [1, 1]) = .ok (T, trace) ∧
+    Tk.hosvdRun Tk.realOps Tk.eighE1 (Tk.permuteD [1, 0] Tk.X21) 0 (some [0, 1]) seq (some [1, 1]) =
+      .ok (Tk.relabelT [1, 0] T, trace.map (Tk.relabelRec [1, 0])) := by
+  obtain ⟨⟨T, trace⟩, h⟩ := Tk.hosvd21_ok seq
+  exact ⟨T, trace, h, C18_relabel_hosvd (p := [1, 0]) Tk.eighE1 Tk.X21 Tk.X21_WF (by decide) 0 (some [1, 0]) seq (some [1, 1]) h⟩
 -- the MU fix-up acts exactly on the (near-)zero entries with a positive multiplier, never in the first iteration
 example : muFixupIf 1 (1 : Int) 1 [[1, 0], [2, 3]] [[0, 0], [5, 0]] = [[1, 0], [5, 1]] ∧
     muFixupIf 0 (1 : Int) 1 [[1, 0], [2, 3]] [[0, 0], [5, 0]] = [[0, 0], [5, 0]] ∧
